@@ -83,6 +83,23 @@ def run_case(case):
     if op == 5:
         r = np.atleast_1d(np.asarray(rv.residual_whitened_rms_flat(x)))
         return [float(v) ** 2 for v in r]
+    if op == 6:
+        # reversal with the SVD-based least squares (singular covariances): return observed, backward (plain) and the inputs' plain form
+        obs, bw = K1.revert(rv, solve_triu=linalg.lstsq_svd)
+        nb = gimpl.normal_blocks(obs, kind)
+        cb = gimpl.cond_blocks(bw, kind)
+        out = []
+        for a in range(len(nb)):
+            out += gimpl.flat_blocks_normal([nb[a]]) + gimpl.flat_blocks_cond([cb[a]])
+        return out
+    if op == 7:   # Normal operations: std, logpdf, rescale, dense conversion
+        import jax
+        std = np.concatenate([np.ravel(np.asarray(x)) for x in jax.tree_util.tree_leaves(rv.std)])
+        lp = float(rv.logpdf_flat(x))
+        fac = 1.5 if kind != "blockdiag" else 1.5 * np.ones((case["d"],))
+        rs = gimpl.flat_blocks_normal(gimpl.normal_blocks(rv.rescale_cholesky(jnp.asarray(fac)), kind))
+        mvn_m, mvn_c = rv.to_multivariate_normal()
+        return {"std": std.tolist(), "logpdf": lp, "rescaled": rs, "mvn_mean": np.asarray(mvn_m).tolist(), "mvn_cov": np.asarray(mvn_c).tolist()}
     raise ValueError(op)
 
 
@@ -92,7 +109,7 @@ def main():
     for c in cases:
         try:
             v = run_case(c)
-            res.append({"out": [float(t) for t in v]})
+            res.append({"out": v} if isinstance(v, dict) else {"out": [float(t) for t in v]})
         except Exception as e:  # noqa: BLE001
             res.append({"error": f"{type(e).__name__}: {e}"})
     json.dump({"results": res}, open(sys.argv[2], "w"))
